@@ -87,7 +87,9 @@ def _bufs(tier, g):
         return [8192]
     if g.get("bigbuf"):
         return [2 * g["bs"]]  # a buffer larger than a block: the aligned over-read leaves the last block
-    return sorted({b for b in base if b % g["sec"] == 0})
+    if g["sec"] == 4096 and g["bs"] == MB:
+        base.append(512)  # a stream alignment below the logical sector size: reads start inside a sector
+    return sorted({b for b in base if b % g["sec"] == 0 or b == 512})
 
 
 def shards(tier):
